@@ -593,6 +593,23 @@ func (e *Engine) evalSpecCall(x *SExpr, env *SpecEnv) Value {
 			r = r.(VTuple)[atoi(args[2].Val)]
 		}
 		return r
+	case "nexec":
+		v := e.evalSpec(args[0], env)
+		vt, ok := v.(VTerm)
+		if !ok {
+			unsup("spec: nexec of %T", v)
+		}
+		return VTerm{T: env.st.getMem("nexec:"+vt.T.String(), mkApp("nexec0", SInt, vt.T)), Typ: intT}
+	case "execarg":
+		// execarg(stmt, i, k, like): i-th argument of the k-th Exec of stmt; `like` fixes the sort
+		v := e.evalSpec(args[0], env)
+		vt, ok := v.(VTerm)
+		if !ok || len(args) != 4 {
+			unsup("spec: execarg(stmt, i, k, like)")
+		}
+		like := term(e.evalSpec(args[3], env))
+		k := term(e.evalSpec(args[2], env))
+		return VTerm{T: mkApp(fmt.Sprintf("execarg%d_%s", atoi(args[1].Val), sortTag(like.Sort)), like.Sort, vt.T, k), Typ: e.evalSpec(args[3], env).(VTerm).Typ}
 	case "view":
 		// ghost abstract state of a repository object: map from asset name to the ordered snapshots it holds
 		v := e.evalSpec(args[0], env)
